@@ -1228,10 +1228,10 @@ def run(ctx):
     rng = ctx.rng
     thorough = ctx.thorough
     replay_witnesses(ctx)
-    atom_level(ctx, 3000 if thorough else 600)
+    atom_level(ctx, 8000 if thorough else 600)
 
     # ---- structural correspondence + oracle on the modelled universe ----
-    per_spec = 700 if thorough else 150
+    per_spec = 2400 if thorough else 150
     mjobs, ojobs = [], []
     specs = all_specs(rng, True)
     for name, sp in specs:
@@ -1279,7 +1279,7 @@ def run(ctx):
         ctx.sample(c[2])
 
     # ---- direct oracle on the rich universe, all eleven options ----
-    per_spec = 500 if thorough else 100
+    per_spec = 1800 if thorough else 100
     ojobs = []
     for name, sp in all_specs(rng, False):
         for fam, a, b, log in gen_pairs(rng, sp, per_spec, True):
